@@ -28,6 +28,8 @@ def run(prog, chk):
     ]
     chk.decided += ["the component / transform filters keep nothing between calls outside their per-call context: a flattening / decomposition result remembered on the filter object would be replayed "
                     "for another font whose same-named glyphs are built differently (R15.8 = R14.2 = R08.8)"]
+    chk.decided += ["the user's pre-filters (anchor propagation among them) see the glyphs with their components: in the interpolatable TrueType pre-processor no decomposition step runs before the loop over "
+                    "self.preFilters (R15.9)"]
     chk.not_decided += ["affine arithmetic and exactness", "rendering equality itself"]
     chk.guard(c01.r012, prog, chk, "R15.1")
     chk.guard(r151b, prog, chk)
@@ -40,6 +42,7 @@ def run(prog, chk):
     chk.guard(check_master_isolation, prog, chk, "R15.7")
     from .c14 import check_no_filter_state
     chk.guard(lambda prog_, chk_: (check_no_filter_state(prog_, chk_, "R15.8"), None)[1], prog, chk)
+    chk.guard(r159, prog, chk)
 
 
 # ----------------------------------------------------------------------------- decomposition is done in one place
@@ -393,7 +396,46 @@ def r155(prog, chk):
     chk.minimum("R15.5", 9)
 
 
+# ----------------------------------------------------------------------------- R15.9
+def r159(prog, chk):
+    """propagateAnchors is a *pre* filter (glyphsLib writes it with pre=True): it must see composites while they still have
+    components.  The built-in decomposition of mixed / non-matching composites therefore comes after the pre-filters."""
+    ix = prog.ix
+    f = ix.get_method("ufo2ft.preProcessor.TTFInterpolatablePreProcessor", "process", own=True)
+    cfg = prog.cfg(f)
+    pre = [lp for lp in A.body_nodes(f.node) if isinstance(lp, ast.For) and "self.preFilters" in T(lp.iter)]
+    need(len(pre) == 1, f"cannot interpret {f.short}: loop over the pre-filters")
+
+    def decomposing_calls(fn, depth=0):
+        out = []
+        for c in A.body_nodes(fn.node):
+            if not isinstance(c, ast.Call):
+                continue
+            if any(isinstance(x, ast.Call) and A.callee_name(x) in ("DecomposeComponentsIFilter", "DecomposeComponentsFilter", "DecomposeTransformedComponentsIFilter", "FlattenComponentsIFilter")
+                   for x in [c] + list(c.args)) or A.callee_name(c) == "decomposeCompositeGlyph":
+                out.append(c)
+            elif depth < 1 and isinstance(c.func, ast.Attribute) and T(c.func.value) == "self" and c.func.attr not in ("_run",):
+                try:
+                    ts, how = prog.resolve_callee(fn, c.func)
+                except Exception:
+                    continue
+                if how in ("exact", "cha") and any(isinstance(t, FuncInfo) and decomposing_calls(t, depth + 1) for t in ts):
+                    out.append(c)
+        return out
+    dec = decomposing_calls(f)
+    need(dec, f"cannot interpret {f.short}: built-in decomposition step")
+    pn = cfg.node_of(pre[0])
+    early = [c for c in dec if not cfg.dominates(pn, cfg.node_of(c))]
+    chk.ob("R15.9", f"{f.short}|no built-in decomposition before the pre-filters have run", not early, where(f, early[0]) if early else where(f, pre[0]), detail=f"{len(dec)} decomposition step(s), all after `for ... in self.preFilters`",
+           message=f"{f.short}: `{T(early[0], 60) if early else ''}` can run before the custom pre-filters: composites that get decomposed there have no components left when "
+                   f"propagateAnchors (a pre-filter) looks at them, so they silently receive none of their bases' anchors")
+    chk.minimum("R15.9", 1)
+
+
 MUTANTS = [
+    M("mixed composites decomposed before the pre-filters run (seeded C15l)", "ufo2ft/preProcessor.py", "TTFInterpolatablePreProcessor.process",
+      "for funcs in itertools.zip_longest(*self.preFilters):\n    self._run(*funcs)",
+      "early = {gname for glyphSet in self.glyphSets for gname, glyph in glyphSet.items() if len(glyph) > 0 and glyph.components}\nif early:\n    self._run(DecomposeComponentsIFilter(include=early))\nfor funcs in itertools.zip_longest(*self.preFilters):\n    self._run(*funcs)", rule="R15.9"),
     M("flattening memoised in a dict kept on the filter object and filled by the helper (seeded C15j)", "ufo2ft/filters/flattenComponents.py", "FlattenComponentsFilter.filter",
       "return _flattenGlyphComponents(glyph, self.context.glyphSet)", "return _note(_flattenGlyphComponents(glyph, self.context.glyphSet), glyph, self._flattened)", rule="R15.8",
       also=(("ufo2ft/filters/flattenComponents.py", "FlattenComponentsFilter", "<add-method>", "def start(self):\n    self._flattened = {}\n"),
